@@ -18,8 +18,52 @@ def sink_statements(k: int, quads: bool):
     return [st + ((G1 if k == 0 else G2),) for st in base]
 
 
+def check_dispatch(run, r):
+    """Spec growth beyond the listed properties: the API's dispatch tables as PyConfig states them vs. the real functions (drift only)."""
+    payload = r.printed("DISPATCH")
+    if not payload:
+        return 0
+    d = json.loads(payload[0])
+    from pyjelly.integrations.generic import serialize as gs  # noqa: PLC0415
+    from pyjelly.integrations.rdflib import serialize as rs  # noqa: PLC0415
+    from pyjelly.serialize import flows, streams  # noqa: PLC0415
+    from rdflib.graph import Dataset, Graph  # noqa: PLC0415
+
+    names = {streams.TripleStream: "triple", streams.QuadStream: "quad", streams.GraphStream: "graph"}
+    fl = {flows.FlatTriplesFrameFlow: "flat_triples", flows.FlatQuadsFrameFlow: "flat_quads", flows.GraphsFrameFlow: "graphs", flows.DatasetsFrameFlow: "datasets"}
+    n = 0
+
+    def expect(what, want, fn):
+        nonlocal n
+        n += 1
+        try:
+            got = fn()
+        except NotImplementedError:
+            got = "NotImplementedError"
+        except Exception as ex:  # noqa: BLE001
+            got = type(ex).__name__
+        if got != want:
+            run.model_drift(f"dispatch {what}: PyConfig says {want}, the code {got}")
+
+    for q in (False, True):
+        key = "quads" if q else "triples"
+        gsink = impl.generic_sink(sink_statements(0, q))
+        rsink = impl.rdflib_container(sink_statements(0, q), dataset=q)
+        expect(f"generic.guess_options({key})", d["guess_options"][key], lambda: gs.guess_options(gsink).logical_type)
+        expect(f"rdflib.guess_options({key})", d["guess_options"][key], lambda: rs.guess_options(rsink).logical_type)
+        for e in d["guess_stream"]:
+            opts = impl.make_options(impl.default_cfg(ltype=e["lt"], gen=False, star=False))
+            expect(f"generic.guess_stream(lt={e['lt']}, {key})", e[key], lambda: names[type(gs.guess_stream(opts, gsink))])
+            expect(f"rdflib.guess_stream(lt={e['lt']}, {key})", e[key], lambda: names[type(rs.guess_stream(opts, rsink))])
+    for e in d["stream_for_type"]:
+        expect(f"stream_for_type({e['pt']})", e["cls"], lambda: names[streams.stream_for_type(e["pt"])])
+    for e in d["flow_for_type"]:
+        expect(f"flow_for_type({e['lt']})", e["flow"], lambda: fl[flows.flow_for_type(e["lt"])])
+    return n
+
+
 def model_outcomes(guard: str):
-    r = tlc.run("PyConfig", cfg_text({"FlushGuard": f'"{guard}"'}, ("NoSilentDrop", "RefusesForbidden", "PrintOutcome")).replace(" <- ", " = "),
+    r = tlc.run("PyConfig", cfg_text({"FlushGuard": f'"{guard}"'}, ("NoSilentDrop", "RefusesForbidden", "PrintOutcome", "PrintDispatch")).replace(" <- ", " = "),
                 workers=1, timeout=600)
     return r
 
@@ -54,6 +98,7 @@ def main(tier: str) -> int:
     r = model_outcomes("always")
     if r.violated or not r.ok:
         env.machinery_failure(f"C06: PyConfig (FlushGuard=always) {r.violated or r.errors[:2]}")
+    dispatch_points = check_dispatch(run, r)
     outcomes = [json.loads(p) for p in r.printed("OUTCOME")]
     if len(outcomes) != 2016:
         env.machinery_failure(f"C06: expected 2016 lattice points from TLC, got {len(outcomes)}")
@@ -161,7 +206,7 @@ def main(tier: str) -> int:
             samples.append({"key": key, "frames": case["nframes"], "bytes": len(case["data"])})
     return run.finish({
         "states": r.distinct, "transitions": r.generated, "traces_validated_against_impl": len(traces), "samples": samples, "exhaustive": True,
-        "lattice_points_model": len(outcomes), "configurations_run": len(cases), "accepted": accepted, "refused": refused,
+        "lattice_points_model": len(outcomes), "dispatch_table_points_compared": dispatch_points, "configurations_run": len(cases), "accepted": accepted, "refused": refused,
         "nonvacuity": "TLC finds NoSilentDrop violated when the model's final flush is restricted to flat logical types",
         "explanation": "TLC enumerates the whole lattice stream class x 8 logical types x delimited x frame_size{1,2,250} x flow{inferred + 6 classes} x {1,2} sinks "
                        "on spec/PyConfig.tla (invariant NoSilentDrop); every point is replayed on the real classes through stream_frames (both integrations) and, with the "
